@@ -702,6 +702,11 @@ func (v *Protocol) WritePacket(pkt Packet, streamID int) (err error) {
 	m.streamID = uint32(streamID)
 	m.betterCid = pkt.BetterCid()
 
+	// The response may arrive before the write returns, so record the request first.
+	if err = v.onPacketWriting(m, pkt); err != nil {
+		return oe.WithMessage(err, "on writing packet")
+	}
+
 	if err = v.WriteMessage(m); err != nil {
 		return oe.WithMessage(err, "write message")
 	}
@@ -714,6 +719,10 @@ func (v *Protocol) WritePacket(pkt Packet, streamID int) (err error) {
 }
 
 func (v *Protocol) onPacketWriten(m *Message, pkt Packet) (err error) {
+	return
+}
+
+func (v *Protocol) onPacketWriting(m *Message, pkt Packet) (err error) {
 	var tid amf0.Number
 	var name amf0.String
 
